@@ -451,3 +451,21 @@ Definition apply_upload (s : state) (r : ureq) (fid : N) (now : Z) (mime : list 
   | EResidue => (step s (OStart fid now mime), o)
   | _ => (s, o)
   end.
+
+(* ------------------------------------------------------------------ *)
+(* vocabulary of the history theorems (Props/PropC16.v)                 *)
+
+Definition run_from (s : state) (h : list op) : state := fold_left step h s.
+
+(* the operation neither deletes the parent of an avatar link nor replaces the avatar *)
+Definition avatar_kept (tg : target) (o : op) : bool :=
+  match o, tg with
+  | OTopicAvatar t _, TTopic x => negb (t =? x)%N
+  | ODelTopic t, TTopic x => negb (t =? x)%N
+  | OUserAvatar u _, TUser x => negb (u =? x)%N
+  | ODelUser u, TUser x => negb (u =? x)%N
+  | _, _ => true
+  end.
+
+Definition gc_older_ok (older : option Z) (f : file) : bool :=
+  match older with Some b => (f_upd f <? b)%Z | None => true end.
